@@ -276,6 +276,42 @@ func init() {
 					}
 					c.Case(0, true, "built+decoded")
 				}})
+			// the limit also holds for items that come into being through FillVariables
+			fillSizes := []int{ref.MaxBytes - 1, ref.MaxBytes, ref.MaxBytes + 1, ref.MaxBytes + 4096}
+			sp = append(sp, h.Space{Name: "limit-through-fill", Count: uint64(len(fillSizes) * 3), ChunkHint: 1,
+				Describe: func(i uint64) interface{} {
+					return fmt.Sprintf("ASCII variable (shape %d) filled with a string of %d bytes", i%3, fillSizes[i/3])
+				},
+				Run: func(c *h.Ctx, i uint64) {
+					n, shape := fillSizes[i/3], int(i%3)
+					str := string(bytes.Repeat([]byte{'f'}, n))
+					var tmpl ast.ItemNode
+					switch shape {
+					case 0:
+						tmpl = ast.NewASCIINodeVariable("v", 0, -1)
+					case 1:
+						tmpl = ast.NewListNode(ast.NewASCIINodeVariable("v", 1, 1<<40), ast.NewUintNode(1, 1))
+					default:
+						tmpl = ast.NewListNode(ast.NewListNode(ast.NewASCIINodeVariable("v", 0, -1)))
+					}
+					var it ast.ItemNode
+					p := catch(func() { it = tmpl.FillVariables(map[string]interface{}{"v": str}) })
+					c.Ops(1)
+					in := fmt.Sprintf("ASCII variable (shape %d) filled with %d bytes", shape, n)
+					if n > ref.MaxBytes {
+						if p == nil {
+							c.Fail("oversize-constructed", in, fmt.Sprintf("fill accepted; len(ToBytes())=%d", len(it.ToBytes())))
+						}
+						c.Case(0, true, "refused")
+						return
+					}
+					if p != nil {
+						c.Fail("constructible-refused", in, fmt.Sprint(p))
+					} else if b := it.ToBytes(); len(b) < n {
+						c.Fail("constructible-does-not-encode", in, fmt.Sprintf("len(ToBytes())=%d", len(b)))
+					}
+					c.Case(0, true, "built")
+				}})
 			// decoder: every length in the sweep, every admissible length-byte form, U1 payloads and lists
 			var lens []int
 			if tier == "thorough" {
@@ -339,21 +375,24 @@ func init() {
 				cnts = append(cnts, n)
 			}
 			cnts = append(cnts, 65534, 65535, 65536, 65537, 70000)
-			sp = append(sp, h.Space{Name: "decoder-list-count-readback", Count: uint64(len(cnts) * 3), ChunkHint: 8,
+			childForms := [][]byte{{0xA5, 0x01, 0x07}, {0x01, 0x00}, {0x41, 0x00}, {0xB1, 0x00}}
+			sp = append(sp, h.Space{Name: "decoder-list-count-readback", Count: uint64(len(cnts) * 3 * len(childForms)), ChunkHint: 8,
 				Describe: func(i uint64) interface{} {
-					return fmt.Sprintf("list of %d children declared with %d length byte(s)", cnts[i/3], i%3+1)
+					return fmt.Sprintf("list of %d children %x declared with %d length byte(s)", cnts[i/3%uint64(len(cnts))], childForms[i/3/uint64(len(cnts))], i%3+1)
 				},
 				Run: func(c *h.Ctx, i uint64) {
+					child := childForms[i/3/uint64(len(cnts))]
+					i = i % uint64(len(cnts)*3)
 					n, nl := cnts[i/3], int(i%3)+1
 					if n >= 1<<(8*uint(nl)) {
 						c.Case(0, false, "form-too-small")
 						return
 					}
-					text := append(ref.ItemHeader(ref.L, n, nl), bytes.Repeat([]byte{0xA5, 0x01, 0x07}, n)...)
+					text := append(ref.ItemHeader(ref.L, n, nl), bytes.Repeat(child, n)...)
 					x := hdr(1, 1, text)
 					m, ok := hsms.Parse(x)
 					c.Ops(1)
-					in := fmt.Sprintf("list of %d children declared with %d length byte(s)", n, nl)
+					in := fmt.Sprintf("list of %d children %x declared with %d length byte(s)", n, child, nl)
 					if !ok {
 						c.Fail("length-form-refused", in, "hsms.Parse refused")
 						c.Case(0, true, "bad")
